@@ -20,8 +20,11 @@ package middleware
 //@   ensures credentials: nextServed == 1 ==> (exists x string :: r.Header.Get("Authorization") == "Basic" + " " + x && b64dec(x) == login + ":" + pass)
 
 // Closing the gzip wrapper flushes to the underlying writer; it enters no handler.
+// ... and it hands the handler's deferred 2xx status on to the real writer, whether
+// or not a body was written (a 204 answered through the gzip wrapper stays a 204).
 //@ func (*gzipResponseWriter).Close [C20]
 //@   modifies fields(gzw), statusWrites, lastStatus, respLast
+//@   ensures deferred-status-is-forwarded: old(gzw.code) / 100 == 2 ==> statusWrites == old(statusWrites) + 1 && lastStatus == old(gzw.code)
 
 //@ func newGzipResponseWriter
 //@   modifies nothing
